@@ -89,9 +89,10 @@ func respell(v any, mask int, top bool) any {
 func init() {
 	// ------------------------------------------------------------------ C12
 	register("C12", func(c *engine.Ctx) {
-		c.Rule = "random schemas (all features, titles, numeric-looking keys) x random option sets; each generated: three times in one process, from files whose objects have their keys in three different random orders, from a relocated directory, and (a sample) by the CLI binary in separate processes; all outputs must be byte-identical under the same names. Distinct = distinct (option set, schema shape)."
+		c.Rule = "random schemas (all features, titles, numeric-looking keys) x random option sets; each generated: three times in one process, from files whose objects have their keys in three different random orders, from a relocated directory, and (a sample) by the CLI binary in separate processes; all outputs must be byte-identical under the same names. Mapping order: sets of 1..4 schema mappings whose ids are pairwise distinct but nearly equal to the schema's $id (trailing # or /, letter case, trailing space, prefix) in EVERY slice order (main.go takes the order from a map): identical outputs, equal to the model's route / rootOverride. Distinct = distinct (option set, schema shape)."
 		c.Proofs([]string{"GJS.Props.C12"}, []string{
 			"GJS.Props.C12.sortedKeys_perm", "GJS.Props.C12.alookup_perm", "GJS.Props.C12.visited_perm", "GJS.Props.C12.parseTypeList_order_free",
+			"GJS.Props.C12.route_perm", "GJS.Props.C12.rootOverride_perm", "GJS.Props.C12.route_exact",
 		})
 		factsOf(c, "mapRanges")
 		tmp, _ := os.MkdirTemp("", "gjsc12")
@@ -163,6 +164,7 @@ func init() {
 			}
 		}
 		c.Programs += n
+		mappingOrderStream(c, &fails)
 		c.FactsVerdict(fails > 0)
 	})
 
